@@ -42,41 +42,29 @@ fn explore_stop(rep: &mut Reporter, tot: &mut Tot, scn: &Scn, cap_override: Opti
     explore_stop_x(rep, tot, scn, cap_override, bound, label, expected_output, false)
 }
 
-/// `must_stop`: the stream carries at least as many errors as the configured cap, so in every execution the
-/// controller must raise the stop flag (the run is cut short by reaching the cap, not one error later).
-#[allow(clippy::too_many_arguments)]
-fn explore_stop_x(rep: &mut Reporter, tot: &mut Tot, scn: &Scn, cap_override: Option<usize>, bound: usize, label: &str, expected_output: Option<&[u8]>, must_stop: bool) {
-    let cfg = scenario::config(scn);
-    let base = Policy { prefix: vec![], max_steps: 30_000, yield_on_unbounded_send: false, cap_override, descending: false };
-    let mut problems: Vec<(String, String, Vec<usize>)> = Vec::new();
-    let mut run = |prefix: &[usize]| {
-        let (r, o) = scenario::run(scn, cfg, policy_for(prefix, &base));
-        LAST.with(|l| *l.borrow_mut() = Some(o));
-        r
-    };
-    let full_caps: Vec<usize> = cap_override.into_iter().collect();
-    let st = explore(bound, 2_000_000, &mut run, &mut |prefix, r| {
-        let o = LAST.with(|l| l.borrow_mut().take()).unwrap();
+/// What one execution must satisfy (shared by the exploration and by the replay of a stored schedule).
+fn judge(r: &fp_sched::core::ExecResult, o: &scenario::Obs, scn: &Scn, expected_output: Option<&[u8]>, must_stop: bool, full_caps: &[usize], tot: &mut Tot) -> Vec<(String, String)> {
+    let mut out: Vec<(String, String)> = Vec::new();
         match &r.outcome {
             Outcome::Completed => {}
-            Outcome::ReplayDiverged(m) => problems.push(("__machinery".into(), format!("replay diverged: {m}"), prefix.to_vec())),
-            Outcome::Deadlock(b) => problems.push(("stop:deadlock".into(), format!("deadlock; blocked threads: {:?}", b), prefix.to_vec())),
-            Outcome::Horizon => problems.push(("stop:no-termination-within-horizon".into(), "step horizon reached".into(), prefix.to_vec())),
+            Outcome::ReplayDiverged(m) => out.push(("__machinery".into(), format!("replay diverged: {m}"))),
+            Outcome::Deadlock(b) => out.push(("stop:deadlock".into(), format!("deadlock; blocked threads: {:?}", b))),
+            Outcome::Horizon => out.push(("stop:no-termination-within-horizon".into(), "step horizon reached".into())),
         }
         for (t, m) in &r.panics {
-            problems.push((format!("stop:panic:{}", t.split(' ').next().unwrap_or(t)), format!("thread {t} panicked: {m}"), prefix.to_vec()));
+            out.push((format!("stop:panic:{}", t.split(' ').next().unwrap_or(t)), format!("thread {t} panicked: {m}")));
         }
         if r.outcome == Outcome::Completed && !o.finished {
-            problems.push(("stop:main-did-not-finish".into(), "all threads ended but the main thread did not reach its end".into(), prefix.to_vec()));
+            out.push(("stop:main-did-not-finish".into(), "all threads ended but the main thread did not reach its end".into()));
         }
         if let Some(exp) = expected_output {
-            if let Some(out) = &o.output_file {
-                let (walked, end) = stream::walk(out);
+            if let Some(file) = &o.output_file {
+                let (walked, end) = stream::walk(file);
                 let whole = end == stream::WalkEnd::Clean && walked.iter().all(|w| w.complete);
                 if !whole {
-                    problems.push(("stop:output-not-whole-packets".into(), format!("filtered output of {} bytes is not a sequence of whole packets ({:?})", out.len(), end), prefix.to_vec()));
-                } else if out.len() > exp.len() || exp[..out.len()] != out[..] {
-                    problems.push(("stop:output-not-a-prefix".into(), format!("filtered output ({} bytes) is not a prefix of the expected filtered stream ({} bytes)", out.len(), exp.len()), prefix.to_vec()));
+                    out.push(("stop:output-not-whole-packets".into(), format!("filtered output of {} bytes is not a sequence of whole packets ({:?})", file.len(), end)));
+                } else if file.len() > exp.len() || exp[..file.len()] != file[..] {
+                    out.push(("stop:output-not-a-prefix".into(), format!("filtered output ({} bytes) is not a prefix of the expected filtered stream ({} bytes)", file.len(), exp.len())));
                 }
             }
         }
@@ -88,7 +76,7 @@ fn explore_stop_x(rep: &mut Reporter, tot: &mut Tot, scn: &Scn, cap_override: Op
                 let fatal = !es["fatal_error"].is_null();
                 let reported = total > 0 || fatal || o.process_result.is_some();
                 if o.any_errors != reported {
-                    problems.push((format!("stop:any-errors-flag-{}", if o.any_errors { "set-without-a-reported-error" } else { "not-set-although-errors-were-reported" }), format!("any-errors flag = {}, the statistics list {total} errors, fatal error present = {fatal}, processing result {:?}", o.any_errors, o.process_result), prefix.to_vec()));
+                    out.push((format!("stop:any-errors-flag-{}", if o.any_errors { "set-without-a-reported-error" } else { "not-set-although-errors-were-reported" }), format!("any-errors flag = {}, the statistics list {total} errors, fatal error present = {fatal}, processing result {:?}", o.any_errors, o.process_result)));
                 }
                 tot.flag_judged += 1;
                 if !reported {
@@ -104,7 +92,28 @@ fn explore_stop_x(rep: &mut Reporter, tot: &mut Tot, scn: &Scn, cap_override: Op
         if r.steps.iter().any(|s| matches!(s.op, fp_sched::core::Op::Store(id, true) if Some(id) == o.stop_flag_id)) {
             tot.stop_observed_runs += 1;
         } else if must_stop && r.outcome == Outcome::Completed {
-            problems.push(("stop:cap-reached-but-not-stopped".into(), format!("the stream carries at least {} errors, the cap is {}, yet the stop flag was never raised", scn.max_errors, scn.max_errors), prefix.to_vec()));
+            out.push(("stop:cap-reached-but-not-stopped".into(), format!("the stream carries at least {} errors, the cap is {}, yet the stop flag was never raised", scn.max_errors, scn.max_errors)));
+        }
+    out
+}
+
+/// `must_stop`: the stream carries at least as many errors as the configured cap, so in every execution the
+/// controller must raise the stop flag (the run is cut short by reaching the cap, not one error later).
+#[allow(clippy::too_many_arguments)]
+fn explore_stop_x(rep: &mut Reporter, tot: &mut Tot, scn: &Scn, cap_override: Option<usize>, bound: usize, label: &str, expected_output: Option<&[u8]>, must_stop: bool) {
+    let cfg = scenario::config(scn);
+    let base = Policy { prefix: vec![], max_steps: 30_000, yield_on_unbounded_send: false, cap_override, descending: false };
+    let mut problems: Vec<(String, String, Vec<usize>)> = Vec::new();
+    let mut run = |prefix: &[usize]| {
+        let (r, o) = scenario::run(scn, cfg, policy_for(prefix, &base));
+        LAST.with(|l| *l.borrow_mut() = Some(o));
+        r
+    };
+    let full_caps: Vec<usize> = cap_override.into_iter().collect();
+    let st = explore(bound, 2_000_000, &mut run, &mut |prefix, r| {
+        let o = LAST.with(|l| l.borrow_mut().take()).unwrap();
+        for (sig, d) in judge(r, &o, scn, expected_output, must_stop, &full_caps, tot) {
+            problems.push((sig, d, prefix.to_vec()));
         }
         true
     });
@@ -338,22 +347,9 @@ struct Job {
     must_stop: bool,
 }
 
-pub fn run(tier: Tier, _replay: Option<String>, part: Option<usize>) -> i32 {
-    let mut rep = Reporter::new("C17", tier, "model_checking");
-    let mut tot = Tot { executions: 0, steps: 0, states: Default::default(), full_queue_seen: false, stop_observed_runs: 0, flag_judged: 0, flag_judged_clean: 0 };
+/// The scheduler scenarios and the number of errors the faulty stream produces in an uncapped reference execution.
+fn jobs(tier: Tier) -> (Vec<Job>, u32) {
     let mut jobs: Vec<Job> = Vec::new();
-    // ---- 3. conformance first: it is what the rest rests on
-    let depth = if tier.is_thorough() { 6 } else { 5 };
-    let (nseq, dis) = if part.is_none() { conformance::run(depth) } else { (0, None) };
-    if let Some(d) = dis {
-        rep.machinery_error(format!("shim/real channel conformance failed: {d}"));
-    }
-    // the shim's own code under the scheduler (non-blocking and timed operations), one level shallower
-    let (nseq_shim, dis_shim) = if part.is_none() { conformance::run_shim(depth - 1) } else { (0, None) };
-    if let Some(d) = dis_shim {
-        rep.machinery_error(format!("shim code / real channel conformance failed: {d}"));
-    }
-    // ---- 1. scheduler scenarios
     let bound = if tier.is_thorough() { 2 } else { 1 };
     let (_, clean3) = streams::multi_link(2, 2, 0, false, false); // 2 links x 2 HBFs = 8 packets = 4 batches of 2
     let (_, faulty3) = streams::multi_link(2, 2, 0, true, false);
@@ -383,12 +379,8 @@ pub fn run(tier: Tier, _replay: Option<String>, part: Option<usize>) -> i32 {
         let scn = Scn { mode: Mode::AllIts, mute: false, max_errors: 0, signal: false, cap: 2, input: faulty3.clone(), scratch: scratch(), toml: false };
         let (_, o) = scenario::run(&scn, scenario::config(&scn), Policy { prefix: vec![], max_steps: 30_000, yield_on_unbounded_send: false, cap_override: Some(1), descending: false });
         let n = o.stats_file.as_ref().and_then(|b| serde_json::from_slice::<serde_json::Value>(b).ok()).and_then(|v| v["error_stats"]["total_errors"].as_u64()).unwrap_or(0) as u32;
-        if n < 4 {
-            rep.machinery_error(format!("reference execution reports only {n} errors"));
-        }
         n
     };
-    rep.cov("error_cap_scenarios_total_errors_in_stream", json!(total_errors));
     for n in 1..=total_errors {
         if !tier.is_thorough() && n > 4 && n % 4 != 0 && n != total_errors {
             continue;
@@ -411,6 +403,72 @@ pub fn run(tier: Tier, _replay: Option<String>, part: Option<usize>) -> i32 {
             jobs.push(Job { scn, cap_override: Some(cap), bound, label: format!("fatal framing error at packet {i}, queue capacity {cap}"), expected_output: None, must_stop: false });
         }
     }
+    (jobs, total_errors)
+}
+
+/// Re-executes the stored schedule of a scheduler violation twice (identical observations required) and judges it again.
+/// 1 = reproduced, 0 = not reproduced, 2 = cannot be replayed this way.
+fn replay_file(path: &str) -> i32 {
+    let Ok(txt) = std::fs::read_to_string(path) else {
+        say!("REPLAY: cannot read {path}");
+        return 2;
+    };
+    let v: serde_json::Value = serde_json::from_str(&txt).unwrap_or(serde_json::Value::Null);
+    let sig = v["signature"].as_str().unwrap_or("").to_string();
+    let r = &v["replay"];
+    let (Some(label), Some(sch)) = (r["scenario"].as_str(), r["schedule"].as_array()) else {
+        say!("REPLAY: {sig}: this violation comes from a run of the real binary (signals, closed pipe, framing errors) or from the TLA+ binding; re-run ./check C17 to see it again (arguments: {})", r);
+        return 2;
+    };
+    let found = [Tier::Quick, Tier::Thorough].into_iter().flat_map(|t| jobs(t).0).find(|j| j.label == label);
+    let Some(j) = found else {
+        say!("REPLAY: no scenario with the label {label:?}");
+        return 2;
+    };
+    let prefix: Vec<usize> = sch.iter().filter_map(|x| x.as_u64().map(|n| n as usize)).collect();
+    let cfg = scenario::config(&j.scn);
+    let pol = Policy { prefix: prefix.clone(), max_steps: 30_000, yield_on_unbounded_send: false, cap_override: j.cap_override, descending: false };
+    let (r1, o1) = scenario::run(&j.scn, cfg, pol.clone());
+    let (r2, o2) = scenario::run(&j.scn, cfg, pol);
+    if r1.steps != r2.steps || o1 != o2 {
+        say!("REPLAY: the same schedule gave different observations twice (uncontrolled nondeterminism) - not a valid replay");
+        return 2;
+    }
+    let mut tot = Tot { executions: 0, steps: 0, states: Default::default(), full_queue_seen: false, stop_observed_runs: 0, flag_judged: 0, flag_judged_clean: 0 };
+    let full_caps: Vec<usize> = j.cap_override.into_iter().collect();
+    let found = judge(&r1, &o1, &j.scn, j.expected_output.as_deref(), j.must_stop, &full_caps, &mut tot);
+    say!("REPLAY: [{label}] schedule {:?}: {:?} after {} steps; {} problem(s)", prefix, r1.outcome, r1.steps.len(), found.len());
+    for (s, d) in &found {
+        say!("REPLAY:   {s}: {d}");
+    }
+    let _ = std::fs::remove_dir_all(scratch());
+    if found.iter().any(|(s, _)| *s == sig) || (sig.is_empty() && !found.is_empty()) { 1 } else { 0 }
+}
+
+pub fn run(tier: Tier, replay: Option<String>, part: Option<usize>) -> i32 {
+    if let Some(path) = replay {
+        return replay_file(&path);
+    }
+    let mut rep = Reporter::new("C17", tier, "model_checking");
+    let mut tot = Tot { executions: 0, steps: 0, states: Default::default(), full_queue_seen: false, stop_observed_runs: 0, flag_judged: 0, flag_judged_clean: 0 };
+    // ---- 3. conformance first: it is what the rest rests on
+    let depth = if tier.is_thorough() { 6 } else { 5 };
+    let (nseq, dis) = if part.is_none() { conformance::run(depth) } else { (0, None) };
+    if let Some(d) = dis {
+        rep.machinery_error(format!("shim/real channel conformance failed: {d}"));
+    }
+    // the shim's own code under the scheduler (non-blocking and timed operations), one level shallower
+    let (nseq_shim, dis_shim) = if part.is_none() { conformance::run_shim(depth - 1) } else { (0, None) };
+    if let Some(d) = dis_shim {
+        rep.machinery_error(format!("shim code / real channel conformance failed: {d}"));
+    }
+    // ---- 1. scheduler scenarios
+    let bound = if tier.is_thorough() { 2 } else { 1 };
+    let (jobs, total_errors) = jobs(tier);
+    if total_errors < 4 {
+        rep.machinery_error(format!("reference execution reports only {total_errors} errors"));
+    }
+    rep.cov("error_cap_scenarios_total_errors_in_stream", json!(total_errors));
     // the scenarios are explored by worker processes (one controlled execution at a time per process)
     if let Some(k) = part {
         let j = &jobs[k];
